@@ -15,23 +15,23 @@ Proof.
   set (m := dt_hour dt * 60 + dt_minute dt). set (wd := dt_weekday dt).
   set (P := dict_get_list tbl ((wd - 1) mod 7)).
   assert (H2' : forall L,
-      (fix loop2 (xs__ : list interval) : bool :=
-         match xs__ with
+      (fix loop2 (xsR : list interval) : bool :=
+         match xsR with
          | [] => false
-         | (start_h, start_m, (end_h, end_m)) :: tl__ =>
+         | (start_h, start_m, (end_h, end_m)) :: tlR =>
              if (end_h * 60 + end_m <=? start_h * 60 + start_m) && (m <? end_h * 60 + end_m)
-             then true else loop2 tl__
+             then true else loop2 tlR
          end) L = existsb (next_day_hit m) L).
   { induction L as [|[[sh sm] [eh em]] tl IH]; [reflexivity|].
     cbn [existsb]. unfold next_day_hit at 1, iv_start, iv_end. cbn [fst snd].
     destruct ((eh * 60 + em <=? sh * 60 + sm) && (m <? eh * 60 + em)); [reflexivity|exact IH]. }
   assert (H2 : (if list_truthy P then
-      (fix loop2 (xs__ : list interval) : bool :=
-         match xs__ with
+      (fix loop2 (xsR : list interval) : bool :=
+         match xsR with
          | [] => false
-         | (start_h, start_m, (end_h, end_m)) :: tl__ =>
+         | (start_h, start_m, (end_h, end_m)) :: tlR =>
              if (end_h * 60 + end_m <=? start_h * 60 + start_m) && (m <? end_h * 60 + end_m)
-             then true else loop2 tl__
+             then true else loop2 tlR
          end) P else false) = existsb (next_day_hit m) P).
   { rewrite H2'. apply list_truthy_existsb. }
   generalize (dict_get_list tbl wd) as L.
@@ -59,14 +59,14 @@ Section CyHours.
   Qed.
 
   Lemma cy_next_loop m P : (forall x, In x P -> iv_small x) ->
-    (fix loop2 (xs__ : list (Z * Z * (Z * Z))) : bool :=
-       match xs__ with
+    (fix loop2 (xsR : list (Z * Z * (Z * Z))) : bool :=
+       match xsR with
        | [] => false
-       | intervals__item :: tl__ =>
-           if (c_int (c_int (fst (snd intervals__item)) * 60 + c_int (snd (snd intervals__item))) <=?
-               c_int (c_int (fst (fst intervals__item)) * 60 + c_int (snd (fst intervals__item)))) &&
-              (m <? c_int (c_int (fst (snd intervals__item)) * 60 + c_int (snd (snd intervals__item))))
-           then true else loop2 tl__
+       | intervals_item :: tlR =>
+           if (c_int (c_int (fst (snd intervals_item)) * 60 + c_int (snd (snd intervals_item))) <=?
+               c_int (c_int (fst (fst intervals_item)) * 60 + c_int (snd (fst intervals_item)))) &&
+              (m <? c_int (c_int (fst (snd intervals_item)) * 60 + c_int (snd (snd intervals_item))))
+           then true else loop2 tlR
        end) P = existsb (next_day_hit m) P.
   Proof.
     induction P as [|x tl IH]; intros Hs; [reflexivity|].
@@ -120,11 +120,11 @@ Section CyHours.
      the caller is that number / 60.0 in double precision on both sides iff the declared C return
      type is 'double' (obligation ret_ctype below) *)
   Lemma daily_py_loop l acc :
-    (fix loop1 (xs__ : list (Z * Z * (Z * Z))) (total_minutes : Z) {struct xs__} : Z :=
-       match xs__ with
+    (fix loop1 (xsR : list (Z * Z * (Z * Z))) (total_minutes : Z) {struct xsR} : Z :=
+       match xsR with
        | [] => total_minutes
-       | (start_h, start_m, (end_h, end_m)) :: tl__ =>
-           loop1 tl__ (total_minutes + (end_h * 60 + end_m - (start_h * 60 + start_m)))
+       | (start_h, start_m, (end_h, end_m)) :: tlR =>
+           loop1 tlR (total_minutes + (end_h * 60 + end_m - (start_h * 60 + start_m)))
        end) l acc = fold_left (fun a x => a + (iv_end x - iv_start x)) l acc.
   Proof.
     revert acc. induction l as [|[[sh sm] [eh em]] tl IH]; intros acc; [reflexivity|].
@@ -143,13 +143,13 @@ Section CyHours.
     revert HL Hord Hlen. generalize (dict_get_list tbl wd) as L.
     assert (G : forall L acc, (forall x, In x L -> iv_small x) -> (forall x, In x L -> iv_end x >= iv_start x) ->
                 0 <= acc -> acc + Z.of_nat (length L) * 100000 <= 200000000 ->
-       (fix loop1 (xs__ : list (Z * Z * (Z * Z))) (total_minutes : Z) {struct xs__} : Z :=
-          match xs__ with
+       (fix loop1 (xsR : list (Z * Z * (Z * Z))) (total_minutes : Z) {struct xsR} : Z :=
+          match xsR with
           | [] => total_minutes
-          | intervals__item :: tl__ =>
-              loop1 tl__ (c_int (total_minutes +
-                (c_int (c_int (fst (snd intervals__item)) * 60 + c_int (snd (snd intervals__item))) -
-                 c_int (c_int (fst (fst intervals__item)) * 60 + c_int (snd (fst intervals__item))))))
+          | intervals_item :: tlR =>
+              loop1 tlR (c_int (total_minutes +
+                (c_int (c_int (fst (snd intervals_item)) * 60 + c_int (snd (snd intervals_item))) -
+                 c_int (c_int (fst (fst intervals_item)) * 60 + c_int (snd (fst intervals_item))))))
           end) L acc = fold_left (fun a x => a + (iv_end x - iv_start x)) L acc).
     { induction L as [|x tl IH]; intros acc Hs Ho Hacc Hbound; [reflexivity|].
       cbn [fold_left]. destruct (Hs x (or_introl eq_refl)) as (H1 & H2 & H3 & H4).
